@@ -114,8 +114,15 @@ func run(pr *rules.Property, L *core.Ledger, kf *core.KnownFindings, repo, verif
 			}()
 			pr.Run(ctx2)
 		}()
+		if os.Getenv("VERIF_DEBUG_PASS2") != "" {
+			for _, o := range L2.Obs {
+				if o.Status != core.Discharged {
+					fmt.Fprintf(os.Stderr, "PASS2 %s %s @%s\n    %s\n", o.Status, o.Key(), o.Pos, o.Detail)
+				}
+			}
+		}
 		if ok {
-			rep, add := L.MergeViewRun(L2)
+			rep, add := L.MergeViewRun(L2, func(o *core.Obligation) bool { return kf.Match(pr.ID, o.Key()) != nil })
 			L.Note("second pass over inlined views: %d rule/function group(s) decided there, %d found only there", rep, add)
 		}
 	}
